@@ -204,8 +204,11 @@ package doccomposer
 //@   results r, err
 //@   ensures err == nil ==> r != nil && fresh(r)
 //@   ensures err != nil ==> r == nil
+// ghost: number of patches handed to applyPatch (every patch of the list is applied, none skipped)
+//@ ghost patchesApplied int
 //@ func applyPatch
 //@   requires doc != nil
+//@   sets patchesApplied = patchesApplied + 1
 //@   results r, err
 //@   ensures err == nil ==> r != nil && (r == doc || fresh(r))
 //@   ensures err != nil ==> r == nil
@@ -213,6 +216,7 @@ package doccomposer
 //@ func (*DocumentComposer).ApplyPatches
 //@   results r, err
 //@   loop 1
-//@     invariant result != nil && fresh(result) && framed()
-//@   ensures err == nil ==> r != nil && fresh(r)
+//@     invariant result != nil && fresh(result) && framed() && patchesApplied == old(patchesApplied) + _k
+//@   ensures err == nil ==> r != nil && fresh(r) && patchesApplied == old(patchesApplied) + len(patches)
+//@   modifies patchesApplied
 //@   ensures err != nil ==> r == nil
